@@ -164,6 +164,37 @@ def extra_mt_stress_feat(tier, seed):
     return _mt_stress(("dd", "metrics", "testutils", "tracing"), tier, seed, "a model-free rule failed under a multi-thread random workload on the feature build (see the probe output)")
 
 
+def extra_chan_probe(tier, seed):
+    """C03 / C01 / C02 / C09, the theorems over Model/Chan.v (the mailbox at permit granularity):
+    random label scripts - obtain a permit, push, give back, fail, take, close, drain, exit test, for
+    1-4 senders and capacities 1-4, under both exit protocols - are run on the real
+    tokio::sync::mpsc channel (chan_probe) and on the extracted cstep (driver --chan); free permits,
+    queue length, closedness and the number of live messages after every step, and the final
+    handled / dropped / per-sender Ok and Err lists must be identical.  This is the tie for the
+    tokio facts the model assumes, including that a value pushed after the receiver has gone stays
+    alive (stranded)."""
+    import gen_chan
+    bins = vlib.build_harness((), bins=("director", "chan_probe"))
+    d = os.path.join(vlib.CACHE, "chan")
+    os.makedirs(d, exist_ok=True)
+    n = 20000 if tier == "quick" else 400000
+    f = os.path.join(d, "scripts_%s.txt" % tier)
+    lines, stats = gen_chan.write(seed, n, f)
+    model = vlib.sh([vlib.DRIVER, "--chan", f], check=True, timeout=1800).stdout.splitlines()
+    real = probe([bins["chan_probe"], f], 1800).splitlines()
+    viol = []
+    if model != real:
+        k = next((i for i in range(min(len(model), len(real))) if model[i] != real[i]), min(len(model), len(real)))
+        viol.append(dict(what="the real tokio channel and the permit-granularity model (Model/Chan.v) disagree",
+                         script=lines[k] if k < len(lines) else "<length differs>",
+                         model=model[k] if k < len(model) else "<none>", real=real[k] if k < len(real) else "<none>",
+                         replay_cmd="chan_probe <file with that line> ; driver --chan <file>"))
+    exited = sum(1 for l in model if "/-/" in l)
+    stranded = sum(1 for l in model if "/-/" in l and not l.split(" H=")[0].rstrip().endswith("/0"))
+    return dict(violations=viol, coverage=dict(chan_scripts=len(lines), chan_labels=stats, chan_scripts_reaching_exit=exited,
+                                               chan_scripts_ending_with_a_stranded_message=stranded))
+
+
 def extra_id_stress(tier, seed):
     """C11: ids handed out by concurrent spawns from many OS threads (fresh process): the model's
     id_of_index says the n-th spawn gets id n, so n spawns give exactly 1..n, all distinct; every
@@ -405,19 +436,19 @@ PROPS = {
         props_file="Props/C01.v",
         families=[("core", NONE, 150), ("time", NONE, 100), ("fault", NONE, 50), ("exh", NONE, 3)],
         projection="C01", monitors=["C01"],
-        extra=[extra_mt_stress],
+        extra=[extra_mt_stress, extra_chan_probe],
     ),
     "C02": dict(
         props_file="Props/C02.v",
         families=[("core", NONE, 150), ("time", NONE, 100), ("exh", NONE, 3)],
         projection="C02", monitors=["C02"],
-        extra=[extra_mt_stress],
+        extra=[extra_mt_stress, extra_chan_probe],
     ),
     "C03": dict(
         props_file="Props/C03.v",
         families=[("fault", NONE, 150), ("multi", NONE, 60), ("core", NONE, 100), ("hostile", NONE, 40), ("exh", NONE, 3)],
         projection="C03", monitors=["C03"],
-        extra=[extra_join_probe, extra_late_push, extra_mt_stress],
+        extra=[extra_join_probe, extra_late_push, extra_mt_stress, extra_chan_probe],
         level_note="Reply integrity and 'the next poll after the target has ended finishes the operation' are proved for every reachable state; that tokio actually wakes the asker (oneshot/channel-close wakers) is runtime behaviour tied only by the correspondence runs to quiescence; ask_join is modelled as a pure function of the ask's result and of how the spawned task ended (value / panic / abort), proved exact (C03_ask_join_exact) and compared with the real crate on every case (join_probe); the task itself and tokio's JoinHandle are exercised, not modelled. On a multi-thread runtime the no-hang clause was violated by a rare race (an envelope pushed after the mailbox had been drained; found by the stress probes, repaired by a fix: commit in /repo, DESIGN.md 7b); the late_push_probe keeps watching for it.",
     ),
     "C07": dict(
@@ -448,7 +479,7 @@ PROPS = {
         props_file="Props/C09.v",
         families=[("core", NONE, 150), ("time", NONE, 100), ("hostile", NONE, 50), ("exh", NONE, 3)],
         projection="C09", monitors=["C09"],
-        extra=[extra_config_probe],
+        extra=[extra_config_probe, extra_chan_probe],
     ),
     "C10": dict(
         props_file="Props/C10.v",
